@@ -293,7 +293,7 @@ def oracle_fourier(c, o):
         return (f'sample {s} (k={o["pts"][s]}) is {y[s]:.6g}, the encoding model c*sum_r x[r] exp(-2 pi i k.(r-r_c)/N_enc) gives '
                 f'{(cfit * ref[s]):.6g} (relative residual {resid:.3g}, paths {o["paths"]})')
     cpred = _predicted_c(c, o)
-    if abs(cfit.imag) > tol * abs(cfit) or cfit.real <= 0 or abs(cfit.real - cpred) > (5e-3 if nufft else 1e-9) * cpred + (1e-12):
+    if abs(cfit.imag) > tol * abs(cfit) or cfit.real <= 0 or abs(cfit.real - cpred) > (2e-2 if nufft else 1e-9) * cpred + (1e-12):
         return f'constant c = {cfit:.6g} is not the positive size-only constant {cpred:.6g} (paths {o["paths"]})'
     if 'y_nufft' in o and o.get('paths2', {}).get('nufft'):
         y2 = np.array([complex(*v) for v in o['y_nufft']])
